@@ -22,14 +22,17 @@ BOUNDS = {
              "revision pairs), BCA / FCF per family layout, FCB per (family, memory type) layout, XMCD per (family, memory "
              "type, block type) layout; binary round trip: ALL registers symbolic over their full width at once; "
              "configuration round trip and computed fields: one symbolic register per case (registers with computed fields, "
-             "the first, the last, every 7th)",
+             "the first, the last, every 7th, every group register such as ROTKH - stored as bare hexadecimal digits); group "
+             "registers up to 512 bits",
     "thorough": "every family x revision (no layout deduplication), configuration round trip for every register",
 }
 OUTSIDE = ("template text: that the generated YAML template is valid YAML and satisfies the JSON schema (ruamel / jsonschema "
            "string processing - not encodable; the schema clause of C12 is NOT decided); ROTKH from real keys and the seal "
            "markers with real certificates (C03); fuse maps, memory-configuration option words and TrustZone presets "
            "(TrustZone bytes are covered inside C01/C02); CRC/hash fuse scripts")
-STUBS = ["Register.get_hex_value / RegsBitField.get_hex_value -> HexNum(str) carrying the integer (as in C11)",
+STUBS = ["Register.get_hex_value / RegsBitField.get_hex_value -> HexNum(str) carrying the integer and whether it is the "
+         "0x-prefixed or the bare rendering; int(x,16) gives the integer back, value_to_int of a bare rendering follows the "
+         "summary proved against the real value_to_int in C11 (hexsummary/*)",
          "get_bytes_cnt_of_int -> verified loop-free summary (proved in C11)", "check_config (JSON schema validation) -> no-op "
          "in the symbolic run", "RegsBitField.get_enum_value of a symbolic value -> number (enum names: C11)"]
 MUST_REACH = ["bin\\..*", "cfg\\..*", "computed\\..*", "xmcd\\..*"]
@@ -50,23 +53,16 @@ def setup(symbolic):
     import spsdk.image.xmcd.xmcd as XM
     from spsdk.utils.database import DatabaseManager as DBM
 
-    class HexNum(str):
-        def __new__(cls, v):
-            s = str.__new__(cls, "0x<sym>")
-            s.sym = v
-            return s
+    from symx.hexnum import HexNum
     if symbolic:
         from symx import loader, summaries, shims
         real_cnt = M.get_bytes_cnt_of_int
         loader.patch_everywhere(real_cnt, summaries.bytes_cnt_summary(real_cnt, 66))
-        real_v2i = M.value_to_int
-
-        def value_to_int(value, default=None):
-            if isinstance(value, HexNum):
-                return value.sym
-            return real_v2i(value, default)
-        loader.patch_everywhere(real_v2i, value_to_int)
-        R.Register.get_hex_value = lambda self, raw=False: HexNum(self.get_value(raw=raw))
+        from symx import hexnum
+        hexnum.install_value_to_int()
+        # a config_as_hexstring register is stored as bare hexadecimal digits, every other one with the 0x prefix
+        R.Register.get_hex_value = lambda self, raw=False: (lambda v: HexNum(
+            v, digits=(self.get_alt_width(v) // 4) if self.config_as_hexstring else None))(self.get_value(raw=raw))
         R.RegsBitField.get_hex_value = lambda self: HexNum(self.get_value())
         # a symbolic bit-field value is rendered as a number, not looked up in the enum table (one fork per enum member
         # and bit-field otherwise; the name <-> value mapping is decided per bit-field in C11)
@@ -76,13 +72,6 @@ def setup(symbolic):
             v = self.get_value()
             return real_enum(self) if isinstance(v, int) else HexNum(v)
         R.RegsBitField.get_enum_value = get_enum_value
-        real_int = shims.sx_int.__new__
-
-        def int_new(cls, x=0, *a, **k):
-            if isinstance(x, HexNum):
-                return x.sym
-            return real_int(cls, x, *a, **k)
-        shims.sx_int.__new__ = int_new
         XM.check_config = lambda *a, **k: None
         import spsdk.utils.images as IM
         IM.BinaryImage.__str__ = lambda self: "<image>"
@@ -173,11 +162,17 @@ def is_fixed(kind, reg):
     return reg.name in FIXED.get(kind, ()) or reg.name.lower() in ("tag",)
 
 
+def too_wide(reg):
+    """group registers above 512 bits (certificate blobs) stay at their reset value: the byte-count summary is proved up
+    to 66 bytes"""
+    return reg.has_group_registers() and reg.width > 512
+
+
 def set_symbolic(env, kind, area, only=None):
     n = 0
     for ri, regs in enumerate(reg_sets(kind, area)):
         for i, reg in enumerate(regs.get_registers()):
-            if is_fixed(kind, reg) or reg.has_group_registers():
+            if is_fixed(kind, reg) or too_wide(reg):
                 continue
             if only is not None and (ri, i) not in only:
                 continue
@@ -317,9 +312,9 @@ def cases(tier):
             rl = regs.get_registers()
             computed = set(area.computed_fields) if kind == "pfr" else set()
             for i, reg in enumerate(rl):
-                if is_fixed(kind, reg) or reg.has_group_registers():
+                if is_fixed(kind, reg) or too_wide(reg):
                     continue
-                if not q or i in (0, len(rl) - 1) or i % 7 == 3 or reg.uid in computed:
+                if not q or i in (0, len(rl) - 1) or i % 7 == 3 or reg.uid in computed or reg.has_group_registers():
                     picks.append((ri, i, reg.name))
         for ri, i, name in picks:
             cs.append({"id": f"cfg/{kind}/{tag}/{name}", "h": "cfg", "kind": kind, "key": list(key), "reg": [ri, i], "weight": 2})
